@@ -2,6 +2,7 @@
 #include "core/directives_include.h"
 #include "cmd_prog.h"
 #include "cmd_isa.h"
+#include "cmd_isa_all.h"
 #include "cmd_cond.h"
 #include "cmd_sym.h"
 #include "cmd_sim.h"
@@ -12,6 +13,7 @@ static void register_all()
 {
   register_prog();
   register_isa();
+  register_isa_all();
   register_cond();
   register_sym();
   register_sim();
